@@ -89,7 +89,8 @@ func in(list []string, s string) bool {
 
 type c16Case struct {
 	Kind     string   `json:"kind"`              // function, command, nonfunc
-	NonFunc  string   `json:"nonfunc,omitempty"` // nil, int, string, struct, slice
+	NonFunc  string   `json:"nonfunc,omitempty"` // nil, int, string, struct, slice; nilfunc, nilfunc0, nilfuncerr: nil values of function types
+	AsCmd    bool     `json:"ascmd,omitempty"`   // (nonfunc) registered through ConvertAndAddCommand and called as a command
 	In       []string `json:"in"`
 	Variadic bool     `json:"variadic,omitempty"` // the last parameter is ...T
 	Out      []string `json:"out"`
@@ -152,6 +153,9 @@ func isLooseErrorType(name string) bool {
 // expectation about registration: "refuse", "accept" or "" (the statement does not decide)
 func (c c16Case) registration() string {
 	if c.Kind == "nonfunc" {
+		if strings.HasPrefix(c.NonFunc, "nilfunc") {
+			return "" // a nil value of a function type: refused at registration or an error at the call, never a panic
+		}
 		return "refuse"
 	}
 	allPlain := true
@@ -271,6 +275,12 @@ func (c c16Case) build(p *c16Probe) any {
 			return "not a function"
 		case "struct":
 			return myPair{1, 2}
+		case "nilfunc":
+			return (func(int) int)(nil)
+		case "nilfunc0":
+			return (func())(nil)
+		case "nilfuncerr":
+			return (func(string) error)(nil)
 		default:
 			return []int{1}
 		}
@@ -413,8 +423,8 @@ func runC16(c c16Case) Verdict {
 	builtin := name != "probe"
 	var stmt string
 	switch {
-	case c.Kind == "command":
-		stmt = "<<" + name + " " + strings.Join(args, " ") + ">>"
+	case c.Kind == "command" || (c.Kind == "nonfunc" && c.AsCmd):
+		stmt = strings.TrimSpace("<<"+name+" "+strings.Join(args, " ")) + ">>"
 	case asValue:
 		stmt = "{cap(" + name + "(" + strings.Join(args, ", ") + "))}"
 	default:
@@ -450,7 +460,7 @@ func runC16(c c16Case) Verdict {
 	var panicked any
 	func() {
 		defer func() { panicked = recover() }()
-		if c.Kind == "command" {
+		if c.Kind == "command" || (c.Kind == "nonfunc" && c.AsCmd) {
 			regErr = dr.ConvertAndAddCommand(name, value)
 		} else {
 			regErr = dr.ConvertAndAddFunction(name, value)
@@ -515,7 +525,18 @@ func runC16(c c16Case) Verdict {
 	}
 	cls = append(cls, "accepted")
 	if c.Kind == "nonfunc" {
-		return Verdict{Classes: cls}
+		// only nil values of function types get here: there is nothing to run, so the call is an error - not a panic
+		// (for a command the panic would be in the bridge's goroutine and kill the process), not a silent success
+		h := &host{dr: dr, storer: newRecStorer()}
+		ev := stepTimed(h, 0, 20*time.Second)
+		for i := 0; ev.K == "wait" && i < 3000; i++ {
+			time.Sleep(time.Millisecond)
+			ev = stepTimed(h, 0, 20*time.Second)
+		}
+		if ev.K != "err" {
+			return failf("registering %s was accepted; the call %s must then be an error, got %s", sig, stmt, ev)
+		}
+		return Verdict{NonTrivial: true, Classes: append(cls, "nil-function-value")}
 	}
 	// ---- the call
 	h := &host{dr: dr, storer: newRecStorer()}
@@ -684,7 +705,13 @@ func genC16(t *rapid.T) c16Case {
 		}
 	}
 	if kind == "nonfunc" {
-		c.NonFunc = rapid.SampledFrom([]string{"nil", "int", "string", "struct", "slice"}).Draw(t, "nonfunc")
+		c.NonFunc = rapid.SampledFrom([]string{"nil", "int", "string", "struct", "slice", "nilfunc", "nilfunc0", "nilfuncerr"}).Draw(t, "nonfunc")
+		c.AsCmd = rapid.Bool().Draw(t, "ascmd")
+		if c.NonFunc == "nilfunc" {
+			c.Args = []mval{numVal(5)}
+		} else if c.NonFunc == "nilfuncerr" {
+			c.Args = []mval{strVal("w")}
+		}
 		return c
 	}
 	paramPool := append(append(append([]string{}, c16Predeclared...), c16Named...), c16Predeclared...)
@@ -767,10 +794,14 @@ func TestC16SignatureTable(t *testing.T) {
 				}
 				return numVal(5)
 			}
-			for _, nf := range []string{"nil", "int", "string", "struct", "slice"} {
+			for _, nf := range []string{"nil", "int", "string", "struct", "slice", "nilfunc", "nilfunc0", "nilfuncerr"} {
 				for _, kind := range []string{"function", "command"} {
-					c := c16Case{Kind: "nonfunc", NonFunc: nf}
-					_ = kind
+					c := c16Case{Kind: "nonfunc", NonFunc: nf, AsCmd: kind == "command"}
+					if nf == "nilfunc" {
+						c.Args = []mval{numVal(5)}
+					} else if nf == "nilfuncerr" {
+						c.Args = []mval{strVal("w")}
+					}
 					if !yield(c) {
 						return
 					}
